@@ -15,6 +15,7 @@
 package event
 
 import (
+	"errors"
 	"io"
 	"path"
 
@@ -23,6 +24,9 @@ import (
 	"github.com/kelindar/binary"
 	"github.com/weaveworks/mesh"
 )
+
+// errInvalidSize is returned when a state declares a size it can not possibly have.
+var errInvalidSize = errors.New("event: the declared size of the state is not valid")
 
 // Value represents an event time & value.
 type Value = crdt.Value
@@ -60,7 +64,11 @@ func DecodeState(buf []byte) (out *State, err error) {
 
 	// Decode the state, while decoding it can only be volatile (as per use-case)
 	decoded := make(map[uint8]crdt.Volatile)
-	if buf, err = snappy.Decode(nil, buf); err == nil {
+	if n, lenErr := snappy.DecodedLen(buf); lenErr != nil {
+		err = lenErr
+	} else if n > 32*len(buf)+1024 {
+		err = errInvalidSize // The size declared can not be decompressed from a buffer of this length
+	} else if buf, err = snappy.Decode(nil, buf); err == nil {
 		err = binary.Unmarshal(buf, &decoded)
 	}
 
